@@ -66,7 +66,7 @@ def run(ctx):
     mism = [l for l in res if not l.startswith("OK ")]
     distinct = len(set(l.split("\t", 2)[2] for l in lines if l.count("\t") >= 2))
     outcomes = {"all_ok": 0, "with_error": 0, "with_panic": 0}
-    kinds = {k: sum(1 for l in lines if l.startswith(k + "\t")) for k in ("S", "M", "L")}
+    kinds = {k: sum(1 for l in lines if l.startswith(k + "\t")) for k in ("S", "M", "L", "P")}
     for l in lines:
         if not l.startswith("S\t"):
             continue
@@ -88,7 +88,8 @@ def run(ctx):
                         "out-of-range track index, truncated/foreign SPS, empty SPS list, invalid object types, fscod 3, no EC-3 "
                         "substream, descriptors not fitting the track). M: MoovBox.AddChild(trak) on every moov child pattern over "
                         "{mvhd, mvex, trak} up to length 6 (1093 patterns; covers the insertion branch that in-scope histories never reach). "
-                        "L: elng encode/decode for fixed tags of length 0..26 (incl. NUL bytes) + %d random tags" % (n, n, n // 4),
+                        "L: elng encode/decode for fixed tags of length 0..26 (incl. NUL bytes) + %d random tags. P: stpp sample entry "
+                        "encode/decode for 216 fixed + %d random NUL-free string triples" % (n, n, n // 4, n // 4),
     }
     ctx.cov["samples"] += [l[:300] for l in lines[5:7]] + [l[:400] for l in lines[-2:]]
     ctx.log("correspondence: %d cases, %d mismatches" % (len(lines), len(mism)))
